@@ -183,6 +183,14 @@ def corpus_cases():
     add("long-basic-line", "RATES\nR1\n\"" + "y" * 300 + "\"\nSOLUTION\nKINETICS\nR1\n")
     add("ss-unknown-then-components", "SOLID_SOLUTIONS\nss\n-comp\n")
     add("advection-cells-minus-one", "ADVECTION\n-cells -1\n")
+    add("long-line-before-keyword", "REACTION_TEMPERATURE\n-parms\n0." + "0" * 400 + "\n")
+    add("transport-stagnant-negative", "TRANSPORT\n-cells 1000000\n-stagnant -1\n")
+    add("basic-del-in-program", "RATES\nR1\n10 DEL GOSUB\nSOLUTION\nKINETICS\nR1\n")
+    add("spread-backslash-row", "SPREAD_SOLUTION\n-1-3\n\\\n")
+    add("basic-huge-line-number", "RATES\n R\n -start\n1111111111111111111111 SAVE TIME\n -end\nSOLUTION 1\nKINETICS 1\n R\n -steps 1\nEND\n")
+    add("charge-int-min", "SURFACE_SPECIES\n2H2O -2147483648\n")
+    add("gas-raw-bad-type", "GAS_PHASE_RAW\n-type -63.67\n")
+    add("extreme-integer-stagnant", "TRANSPORT\n-stagnant 2147483647\n")
     C.append(mk_case("corpus", "long-species-equation-db", [("loaddb", b"db_long.dat")], sw=[("errstr", 1)],
                      files={"db_long.dat": b"SOLUTION_SPECIES\nMn+2 + 2 NO3- = Mn(NO3)2" + b" a" * 200 + b"\n"}))
     C.append(mk_case("corpus", "kinetics-constant-rate", [("run", HANG_INPUT)], sw=[("errstr", 1)], timeout=5))
